@@ -17,7 +17,8 @@ FINGERPRINTS = "C03"     # Tie B: pinned source text of the hand-transcribed dol
 
 
 IMPORTS = IMPORTS + ["SodiumModel.Properties.C03Asm"]
-IMPORTS = IMPORTS + ["SodiumModel.Properties.C03Asm2"]
+IMPORTS = IMPORTS + ["SodiumModel.Properties.C03Asm2", "SodiumModel.Properties.C03Asm3"]
+THEOREMS = THEOREMS + vcore.theorems_in("SodiumModel/Properties/C03Asm3.lean", ["block_output", "counter_increment", "carry_low_to_high", "wrap_at_2p64", "block_tail_indices"], "Sodium.C03Asm3")
 THEOREMS = THEOREMS + vcore.theorems_in("SodiumModel/Properties/C03Asm2.lean", ['prologue_frame', 'prologue_control', 'prologue_ctx_eq_setup', 'prologue_ctx_eq_spec_init', 'prologue_counter', 'frame_aligned', 'driver_state_is_entry', 'driver_prologue', 'mainloop2_body_is_row_body', 'mainloop2_label', 'mainloop2_is_rounds'], "Sodium.C03Asm2")
 _TASM = ["load_after_store", "load_after_disjoint_store", "program_jumps_resolved", "entries_are_labels"]
 THEOREMS = THEOREMS + vcore.theorems_in("SodiumModel/Properties/C03Asm.lean", _TASM, "Sodium.C03Asm")
